@@ -194,3 +194,35 @@ check('C04', TV,
       'Trusted as C03. Blocks with more than 60 local columns are stretch obligations.',
       'SMT exists-forall LRA projection per block + exact LRA optimisation',
       'DESIGN.md section 4 C04')
+
+check('C09', TV,
+      'Histories (other sets defined before/between/after, sets attached late and in reverse order, primal and dual '
+      'formulation and solve between st() calls, further declarations after a formulation, one expression object re-used '
+      'under E(maxof) and in a plain constraint, interleaved ambiguity sets, repeated formulation) are replayed on the real '
+      'API only; the program compiled after the history must satisfy the C01/C02 (ro) resp. C03/C04 (dro) obligations '
+      'against the semantics of the declared model - inclusion for all compiled-feasible points and realisations / '
+      'distributions, exists-forall projection per block - and have the same exact optimum as a fresh build.',
+      'Trusted as C01-C04. Equality of denoted sets, not of matrices, is the oracle (histories may reorder or add columns).',
+      'SMT translation validation of the program compiled after each history + exact optimum vs fresh build',
+      'DESIGN.md section 4 C09')
+
+check('C15', TV,
+      'Every member of the rewrite group (min f / -max -f, declaration order, a<=b / -b<=-a / b>=a, equality / two '
+      'inequalities, bounds as Bounds / linear constraints / inf-norm, array / loops, positive rescaling, set as list / '
+      'several arguments, ro / single-scenario dro) is compiled by the real code and z3 computes the exact optimum of each '
+      'compiled program over exact rationals; all variants of a base model must agree exactly, and the real solve() must '
+      'report that value.',
+      'Trusted: z3 Optimize (LRA). Base family is LP-representable (box / 1-norm sets, LDR); rewrites are composed in '
+      'pairs in the thorough tier.',
+      'exact LRA optimisation (z3) of every rewritten model\'s real compiled program; pairwise equality',
+      'DESIGN.md section 4 C15')
+
+check('C17', TV,
+      'Two models (every ordered pair of ro/dro) are built with declarations, sets, formulation and solves interleaved in '
+      'four patterns; z3 decides that each compiled program has the same feasible set, objective and exact optimum as the '
+      'program of the same model built alone. Auxiliary (finite, exhaustive over model kinds): 14 misuse patterns - '
+      'cross-model constraint / variable / random variable / set / objective set, second objective, non-scalar objective, '
+      'reading unsolved / infeasible / unbounded models, ambiguity() after constraints - must raise.',
+      'Trusted: z3. The misuse matrix is a concrete finite probe (reported separately in evidence).',
+      'SMT equivalence (xor, QF_LRA) of interleaved vs alone compiled programs + exact optimum',
+      'DESIGN.md section 4 C17')
